@@ -53,7 +53,7 @@ type Case struct {
 var (
 	routePool  = []string{"/x", "/y/{id}", "/v1/x", "/{any}", "/v2/y/{id}", "/", "/{ver:\\d+}/p/b", "/{o}/p/c"}
 	domainSets = [][]string{{"a.com"}, {"{sub}.b.com"}, {"a.com", "{sub}.b.com"}, {"c.com", "a.com"}, {"{sub}.b.com", "{sub}.b.org"}, {"{ver}.b.com", "{ver}.b.org", "a.com"}, {"{v}.b.com", "{v}.b.org"}, {"{-ver}.b.com", "{-ver}.b.org", "{v:\\w+}.b.net"}}
-	verSets    = [][]string{{"v1"}, {"v2"}, {"v1", "v2"}, {"v11", "v1"}}
+	verSets    = [][]string{{"v1"}, {"v2"}, {"v1", "v2"}, {"v11", "v1"}, {"a/v1", "a/v2"}, {"v1/beta", "v1"}}
 	names      = []string{"r1", "r2", "r3", "r4"}
 )
 
@@ -141,7 +141,7 @@ func gen(t *rapid.T) Case {
 	for i, n := 0, rapid.IntRange(1, 8).Draw(t, "nreqs"); i < n; i++ {
 		c.Reqs = append(c.Reqs, Rq{
 			Method: rapid.SampledFrom([]string{"GET", "GET", "POST", "OPTIONS"}).Draw(t, "m"),
-			Path:   rapid.SampledFrom([]string{"/v1/x", "/v2/y/7", "/x", "/v1/v1/x", "/y/7", "/v1/zz", "/v11/x", "/v1", "/v2/v1/x", "/", "/v1/", "/7/p/c", "/v1/7/p/c", "/v1/7/p/b"}).Draw(t, "path"),
+			Path:   rapid.SampledFrom([]string{"/v1/x", "/v2/y/7", "/x", "/v1/v1/x", "/y/7", "/v1/zz", "/v11/x", "/v1", "/v2/v1/x", "/", "/v1/", "/7/p/c", "/v1/7/p/c", "/v1/7/p/b", "/a/v2/x", "/a/v1/y/7", "/v1/beta/x", "/a/x"}).Draw(t, "path"),
 			Host:   rapid.SampledFrom([]string{"a.com", "q.b.com", "c.com", "A.COM:80", "d.com", "", "q.b.net", "q.b.org", "x.b.com.cn"}).Draw(t, "host"),
 			Accept: rapid.SampledFrom([]string{"a/b; version=v1", "", "a/b; version=v9", "a/b; version=v2", "junk;;"}).Draw(t, "accept"),
 			Panic:  rapid.IntRange(0, 5).Draw(t, "panic") == 0,
@@ -449,7 +449,7 @@ func check(c Case, st *rig.Stats) error {
 }
 
 var stats = rig.NewStats("C13",
-	"(since round 5: the group optionally has WithStatusRecovery(590), a third of the routers a WithStatusRecovery of their own, and one request in six makes the answering handler panic: through the group the outcome - escaped or not, status - must be the one the accepting router alone gives, and the group's own not-found path is contained iff the group has the option) rapid draws a history of 1-8 Group steps (New / Add of a router with a matcher built from nil, Hosts, path-version, header-version, And, Or with nesting depth <= 2 and a table drawn from six routes; Remove(name); Use; duplicate names) and 1-8 requests (paths with none / one / repeated version segments, hosts literal / wildcard / with port / unknown, Accept with matching / other / no version). After every step every request is evaluated by a pure reference matcher evaluator (And threads the request through its members and is the identity when any member rejects; Or takes the first accepting member on the original request) to pick the first accepting router; the group's answer must equal that router alone serving the produced path, plus the matcher's parameters, with URL.Path seen by CallFunc equal to the produced path; when nobody accepts the group's not-found handler runs with the Group.Use middlewares, no parameters and the original path. Names stay unique; removed routers never answer. Non-trivial: >=2 routers and at least one composite matcher rejected before the request was accepted or fell through; distinct by hash of the case",
+	"(version lists include multi-segment versions sharing their first segment; since round 5: the group optionally has WithStatusRecovery(590), a third of the routers a WithStatusRecovery of their own, and one request in six makes the answering handler panic: through the group the outcome - escaped or not, status - must be the one the accepting router alone gives, and the group's own not-found path is contained iff the group has the option) rapid draws a history of 1-8 Group steps (New / Add of a router with a matcher built from nil, Hosts, path-version, header-version, And, Or with nesting depth <= 2 and a table drawn from six routes; Remove(name); Use; duplicate names) and 1-8 requests (paths with none / one / repeated version segments, hosts literal / wildcard / with port / unknown, Accept with matching / other / no version). After every step every request is evaluated by a pure reference matcher evaluator (And threads the request through its members and is the identity when any member rejects; Or takes the first accepting member on the original request) to pick the first accepting router; the group's answer must equal that router alone serving the produced path, plus the matcher's parameters, with URL.Path seen by CallFunc equal to the produced path; when nobody accepts the group's not-found handler runs with the Group.Use middlewares, no parameters and the original path. Names stay unique; removed routers never answer. Non-trivial: >=2 routers and at least one composite matcher rejected before the request was accepted or fell through; distinct by hash of the case",
 	"matcher parameter names are disjoint from route parameter names",
 	"Hosts members use the C02 reference resolver on the lower-cased host without a valid port")
 
